@@ -18,6 +18,7 @@ import (
 	"strings"
 	"time"
 
+	"github.com/anz-bank/sysl/pkg/importer"
 	"github.com/anz-bank/sysl/pkg/parse"
 	"github.com/anz-bank/sysl/pkg/sysl"
 	"github.com/anz-bank/sysl/pkg/syslutil"
@@ -32,6 +33,7 @@ type req struct {
 	Root    string            `json:"root"`
 	Logs    bool              `json:"logs,omitempty"`    // report what logrus received and the files Parse processed
 	Payload bool              `json:"payload,omitempty"` // report the bytes of the first return payload / call endpoint of App.E
+	Direct  bool              `json:"direct,omitempty"`  // not a compilation: hand Files[Root] to the importer the file name selects (for the record only)
 }
 type rep struct {
 	Outcome   string   `json:"outcome"` // model | error | panic
@@ -43,6 +45,7 @@ type rep struct {
 	Processed []string `json:"processed,omitempty"` // OperationSummary: the files handed to parseSpecs, in order
 	Payload   string   `json:"payload,omitempty"`   // hex of the payload of the first statement of App.E ("none": no such statement)
 	Lit       string   `json:"lit,omitempty"`       // the integer literal assigned first in view App.v: "i:<decimal>", "unset" (no value), "other"
+	Names     string   `json:"names,omitempty"`     // "app=<hex>;target=<hex>;mixin=<hex>": Name.Part (joined by "::") of the only application, of the target of the first call of App.E, of the first mixin of App
 }
 
 // logHook collects what the code under test logs; a Fatal entry is also written to stderr, because logrus ends the
@@ -92,6 +95,21 @@ func compileInWorker(line []byte) interface{} {
 				out = rep{Outcome: "panic", Msg: fmt.Sprint(x), Trace: string(debug.Stack())}
 			}
 		}()
+		if r.Direct {
+			imp, err := importer.Factory(r.Root, false, "", []byte(r.Files[r.Root]), logrus.StandardLogger())
+			if err == nil {
+				imp, err = imp.Configure(&importer.ImporterArg{AppName: "Api", PackageName: "Foo"})
+			}
+			if err == nil {
+				_, err = imp.Load(r.Files[r.Root])
+			}
+			if err != nil {
+				out = rep{Outcome: "error", Code: 1, Msg: err.Error()}
+			} else {
+				out = rep{Outcome: "model"}
+			}
+			return
+		}
 		fs := afero.NewMemMapFs()
 		for n, c := range r.Files {
 			afero.WriteFile(fs, n, []byte(c), 0o644)
@@ -138,6 +156,22 @@ func compileInWorker(line []byte) interface{} {
 		}
 		out = rep{Outcome: "model", Apps: len(m.Apps)}
 		if r.Payload {
+			var nm []string
+			join := func(n *sysl.AppName) string { return hex.EncodeToString([]byte(strings.Join(n.GetPart(), "::"))) }
+			if len(m.Apps) == 1 {
+				for _, a := range m.Apps {
+					nm = append(nm, "app="+join(a.Name))
+				}
+			}
+			if a := m.Apps["App"]; a != nil {
+				if e := a.Endpoints["E"]; e != nil && len(e.Stmt) > 0 && e.Stmt[0].GetCall() != nil {
+					nm = append(nm, "target="+join(e.Stmt[0].GetCall().Target))
+				}
+				if len(a.Mixin2) > 0 {
+					nm = append(nm, "mixin="+join(a.Mixin2[0].Name))
+				}
+			}
+			out.Names = strings.Join(nm, ";")
 			out.Payload = "none"
 			if a := m.Apps["App"]; a != nil && a.Views["v"] != nil {
 				out.Lit = "other"
@@ -172,19 +206,37 @@ type caseT struct {
 	Note    string            `json:"note,omitempty"`
 	Logs    bool              `json:"logs,omitempty"`
 	Payload bool              `json:"payload,omitempty"`
+	Slow    bool              `json:"slow,omitempty"` // an OpenAPI 3 document: the arr.ai importer takes seconds, the deadline is 150 s
 }
 
 var w *common.Worker
 
-func run(c *common.Ctx, cs caseT) rep {
+func runOn(wk *common.Worker, cs caseT, deadline time.Duration) rep {
 	var r rep
-	died, timedOut, stderr := w.Call(req{cs.Files, cs.Root, cs.Logs, cs.Payload}, &r, 20*time.Second)
+	died, timedOut, stderr := wk.Call(req{Files: cs.Files, Root: cs.Root, Logs: cs.Logs, Payload: cs.Payload}, &r, deadline)
 	if timedOut {
 		r = rep{Outcome: "hang"}
 	} else if died {
 		r = rep{Outcome: "died", Trace: stderr}
 	}
 	return r
+}
+
+func run(c *common.Ctx, cs caseT) rep {
+	if cs.Slow {
+		return runOn(w, cs, 150*time.Second)
+	}
+	return runOn(w, cs, 20*time.Second)
+}
+
+// caseKey: a case is its set of files
+func caseKey(cs caseT) string {
+	var ks []string
+	for k, v := range cs.Files {
+		ks = append(ks, k+"\x00"+v)
+	}
+	sort.Strings(ks)
+	return strings.Join(ks, "\x01")
 }
 
 // judge: the property itself
@@ -206,6 +258,10 @@ func judge(c *common.Ctx, cs caseT, r rep) {
 			c.Fail("killed:logrus.Fatal:"+fs, fmt.Sprintf("compiling %s ends the process in logrus.Fatal (%s)", cs.Note, msg), cs)
 			return
 		}
+		if fn := overflowSite(r.Trace); fn != "" {
+			c.Fail("stack-overflow:"+fn, fmt.Sprintf("compiling %s ends the process with `fatal error: stack overflow`: unbounded recursion through %s", cs.Note, fn), cs)
+			return
+		}
 		site := common.PanicSite(r.Trace)
 		what := r.Msg
 		if what == "" {
@@ -222,10 +278,37 @@ func judge(c *common.Ctx, cs caseT, r rep) {
 		}
 		c.Fail("crash:"+site, fmt.Sprintf("compiling %s aborts with a runtime panic at %s: %s", cs.Note, site, what), cs)
 	case "hang":
-		c.Fail("hang", fmt.Sprintf("compiling %s did not terminate within 20 s", cs.Note), cs)
+		c.Fail("hang", fmt.Sprintf("compiling %s did not terminate within the deadline (20 s; 150 s for an OpenAPI 3 import)", cs.Note), cs)
 	default:
 		c.Fail("harness", "unexpected worker outcome "+r.Outcome, cs)
 	}
+}
+
+// overflowSite: for a `fatal error: stack overflow` trace, the function of the module that occurs most often among the
+// frames shown (the top frame of an overflow is arbitrary; the recursion is what repeats). "" = not a stack overflow.
+func overflowSite(trace string) string {
+	if !strings.Contains(trace, "stack overflow") {
+		return ""
+	}
+	count := map[string]int{}
+	for _, l := range strings.Split(trace, "\n") {
+		l = strings.TrimSpace(l)
+		if !strings.HasPrefix(l, "github.com/anz-bank/sysl/") {
+			continue
+		}
+		if i := strings.LastIndex(l, "("); i > 0 {
+			l = l[:i]
+		}
+		l = strings.TrimPrefix(l, "github.com/anz-bank/sysl/")
+		count[l]++
+	}
+	best, n := "unknown", 0
+	for f, k := range count {
+		if k > n || (k == n && f < best) {
+			best, n = f, k
+		}
+	}
+	return best
 }
 
 // ---------- stream A: the crash family found while reading the listener ----------
@@ -276,6 +359,31 @@ type fieldForm struct {
 	nat, wrap, spec int // spec: 0 none 1 (n) 2 (n.m) 3 (n..m) 4 (n..)
 	a, b            int // indices into nums
 	opt             bool
+}
+
+// the positions a type expression can stand in besides a field of a !type
+var typePositions = []string{"type-field", "alias", "endpoint-param", "path-param", "query-param", "union-member", "table-field", "view-param"}
+
+func (f fieldForm) textAt(pos int) string {
+	src := f.text()
+	ty := strings.TrimSuffix(strings.TrimPrefix(strings.Split(src, "\n")[2], "        f <: "), "\n")
+	switch pos {
+	case 1:
+		return "App:\n    !alias Al:\n        " + ty + "\n"
+	case 2:
+		return "App:\n    E(p <: " + ty + "):\n        ...\n"
+	case 3:
+		return "App:\n    /x/{id <: " + ty + "}:\n        GET:\n            ...\n"
+	case 4:
+		return "App:\n    /x:\n        GET ?q=" + ty + ":\n            ...\n"
+	case 5:
+		return "App:\n    !union U:\n        " + ty + "\n"
+	case 6:
+		return "App:\n    !table T:\n        f <: " + ty + "\n"
+	case 7:
+		return "App:\n    !view v(a <: " + ty + ") -> int:\n        a -> (:\n            x = 1\n        )\n"
+	}
+	return src
 }
 
 func (f fieldForm) text() string {
@@ -528,8 +636,82 @@ func odd(r *common.Rng) string {
 	return sb.String()
 }
 
+// B2: the same type expressions in the other positions a type can stand in; same predictor (class of the outcome)
+func fieldPositions(c *common.Ctx, single func(stream, note, src string) rep, forms []fieldForm, header, footer string, big bool) {
+	pc := c.NewCases("C01fieldpos", header, "fdecl * obsclass", footer, 1200)
+	div := uint64(60)
+	if big {
+		div = 4
+	}
+	only := os.Getenv("VERIF_C01_FIELDPOS") // development aid: "all" = every form
+	for pos := 1; pos < len(typePositions); pos++ {
+		for i, f := range forms {
+			few := pos == 3 || pos == 4 // path / query parameter: 26 admitted forms each, all of them in both tiers
+			if only != "all" && !few && (uint64(i)*2654435761+uint64(pos)*40503+c.Seed)%div != 0 {
+				continue
+			}
+			if !typePosTakes(pos, f) {
+				continue
+			}
+			src := f.textAt(pos)
+			r := single("field-form", fmt.Sprintf("type expression in position %s: %q", typePositions[pos], strings.TrimSpace(strings.Split(src, "\n")[len(strings.Split(src, "\n"))-2])), src)
+			cls := "OModel"
+			switch r.Outcome {
+			case "error":
+				cls = fmt.Sprintf("(OError %d)", r.Code)
+			case "model":
+			default:
+				cls = "OCrash"
+			}
+			c.Hist("field-position:" + typePositions[pos] + ":" + cls)
+			if dump := os.Getenv("VERIF_C01_DUMP"); dump != "" {
+				if fh, err := os.OpenFile(dump, os.O_APPEND|os.O_CREATE|os.O_WRONLY, 0o644); err == nil {
+					fmt.Fprintf(fh, "%d\t%d\t%d\t%d\t%v\t%s\t%s\t%s\n", pos, f.nat, f.wrap, f.spec, f.opt, cls, r.Msg, f.gallina())
+					fh.Close()
+				}
+			}
+			pc.Add(fmt.Sprintf("(%s, %s)", f.gallina(), cls), caseT{Stream: "field-form", Files: map[string]string{"root.sysl": src}, Root: "root.sysl"})
+		}
+	}
+	pc.Close()
+}
+
+// typePosTakes: the forms the grammar admits in a position
+// (measured once over all 6 630 forms x 7 positions; a form outside is a syntax error there and never reaches the listener)
+func typePosTakes(pos int, f fieldForm) bool {
+	switch pos {
+	case 1, 5: // alias, union member: no `?`; a size / array spec only behind `set of` / `sequence of`
+		return !f.opt && (f.wrap != 0 || f.spec == 0)
+	case 3: // path parameter: a bare type or `sequence of` one
+		return !f.opt && f.spec == 0 && f.wrap != 1
+	case 4: // query parameter: a bare type, optional or not
+		return f.spec == 0 && f.wrap == 0
+	case 7: // view parameter: a spec only behind a collection
+		return f.wrap != 0 || f.spec == 0
+	}
+	return true // endpoint parameter, table field: everything a !type field takes
+}
+
+const fieldHeader = `From Coq Require Import List ZArith Bool NArith. Import ListNotations.
+Require Import Verif.Total.FieldPanics Verif.Total.Pipeline Verif.Total.RunC01 Verif.Gen.Guards Verif.Base.Harness.
+Local Open Scope Z_scope.
+Definition D n w s o := {| fnat := n; fwrap := w; fspec := s; fopt := o |}.`
+const fieldFooter = `Definition M := Eval vm_compute in mismatches (c01_field_ok Gen.Guards.guards) cases. Print M.`
+
 func main() {
 	if common.IsWorker() {
+		// unbounded recursion ends in `fatal error: stack overflow` when a goroutine's stack passes the limit (1 GB by
+		// default, reached only after tens of seconds): 64 MB shows the same death within the deadline
+		debug.SetMaxStack(64 << 20)
+		// a worker that is stuck in the code under test never sees its stdin close: leave when the harness is gone
+		go func() {
+			for {
+				time.Sleep(2 * time.Second)
+				if os.Getppid() == 1 {
+					os.Exit(3)
+				}
+			}
+		}()
 		logrus.SetLevel(logrus.WarnLevel) // entries go to the hook only
 		logrus.SetOutput(io.Discard)
 		logrus.AddHook(hook)
@@ -544,7 +726,7 @@ func main() {
 	if repo == "" {
 		repo = "/repo"
 	}
-	c.Res.Rule = "each case = a root file (plus imported files) compiled by the real parser in a worker subprocess; streams: crash-family corpus, field-type forms (13 natives x 5 spec forms x 3 wrappers x digit lengths 1..20), token/line/byte-level mutants of the repository's .sysl corpus, generated grammatical-but-odd specs, import closures over those, closures of 1-5 files reached under several spellings of the same path with re-opened / case-variant applications and duplicate endpoints (the linter model replays their recordings), free text after `return` / `<-` over {% 2 0 4 a G blank +} up to length 4 (the MustUnescape model predicts panic or the stored bytes); distinct = distinct file contents; non-trivial = the input is not an unmodified corpus file"
+	c.Res.Rule = "each case = a root file (plus imported files) compiled by the real parser in a worker subprocess; streams: crash-family corpus, field-type forms (13 natives x 5 spec forms x 3 wrappers x digit lengths 1..20), token/line/byte-level mutants of the repository's .sysl corpus, generated grammatical-but-odd specs, import closures over those, closures of 1-5 files reached under several spellings of the same path with re-opened / case-variant applications and duplicate endpoints (the linter model replays their recordings), free text after `return` / `<-` over {% 2 0 4 a G blank +} up to length 4 (the MustUnescape model predicts panic or the stored bytes), the same texts as application name / call target / mixin (the name-position model predicts syntax error, recovered panic or the stored name), all sequences of 1..4 application blocks over two applications with 0..2 `!wrap` members each in three file layouts, foreign files (Swagger 2 / OpenAPI 3 in yaml and json, XSD) with cyclic schemas reached through import statements (1-4 definitions out of {A,B,C,D,object}, schema positions = $ref or inline schema of depth <= 3, circles through allOf / items / properties / oneOf / additionalProperties; the model of the Swagger importer's recursion predicts `circular reference detected` or success); distinct = distinct file contents; non-trivial = the input is not an unmodified corpus file"
 	if c.Replay != "" {
 		var cs caseT
 		if err := common.LoadReplay(c.Replay, &cs); err != nil {
@@ -575,6 +757,34 @@ func main() {
 		return do(caseT{Stream: stream, Files: map[string]string{"root.sysl": src}, Root: "root.sysl", Note: note})
 	}
 	big := c.Thorough() || c.Search
+	switch os.Getenv("VERIF_C01_ONLY") { // development aid: one stream alone
+	case "foreign":
+		foreignStream(c, do, big)
+		return
+	case "unescape":
+		unescapeStream(c, do, big)
+		return
+	case "wrap":
+		wrapStream(c, do, big)
+		return
+	case "fieldpos":
+		var forms []fieldForm
+		for nat := range natives {
+			for wrap := 0; wrap < 3; wrap++ {
+				for _, opt := range []bool{false, true} {
+					forms = append(forms, fieldForm{nat, wrap, 0, 0, 0, opt})
+					for a := range nums {
+						forms = append(forms, fieldForm{nat, wrap, 1, a, 0, opt}, fieldForm{nat, wrap, 4, a, 0, opt})
+						for b := range nums {
+							forms = append(forms, fieldForm{nat, wrap, 2, a, b, opt}, fieldForm{nat, wrap, 3, a, b, opt})
+						}
+					}
+				}
+			}
+		}
+		fieldPositions(c, single, forms, fieldHeader, fieldFooter, big)
+		return
+	}
 
 	// A
 	for i, src := range crashFamily {
@@ -585,11 +795,7 @@ func main() {
 	}
 
 	// B: field forms -> Coq predictor
-	header := `From Coq Require Import List ZArith Bool NArith. Import ListNotations.
-Require Import Verif.Total.FieldPanics Verif.Total.Pipeline Verif.Total.RunC01 Verif.Gen.Guards Verif.Base.Harness.
-Local Open Scope Z_scope.
-Definition D n w s o := {| fnat := n; fwrap := w; fspec := s; fopt := o |}.`
-	footer := `Definition M := Eval vm_compute in mismatches (c01_field_ok Gen.Guards.guards) cases. Print M.`
+	header, footer := fieldHeader, fieldFooter
 	fc := c.NewCases("C01field", header, "fdecl * obsclass", footer, 1200)
 	var forms []fieldForm
 	for nat := range natives {
@@ -631,6 +837,7 @@ Definition D n w s o := {| fnat := n; fwrap := w; fspec := s; fopt := o |}.`
 	if big {
 		c.Res.Extra["field_forms_exhaustive"] = true
 	}
+	fieldPositions(c, single, forms, header, footer, big)
 
 	// C: corpus and mutants
 	files := corpus(repo)
@@ -855,6 +1062,12 @@ Local Open Scope Z_scope.`
 	// H: free text in `return` / call statements against the MustUnescape model (Total/Unescape.v)
 	unescapeStream(c, do, big)
 
+	// J: a second `!wrap` of one application anywhere in the closure (Total/Wrap.v)
+	wrapStream(c, do, big)
+
+	// I: foreign files with cyclic schemas reached through import statements (Total/ImportRec.v predicts the Swagger 2 fragment)
+	foreignStream(c, do, big)
+
 	// F: the real binary on a sample: exit status and stderr markers
 	if bin := os.Getenv("VERIF_SYSL_BIN"); bin != "" {
 		dir, _ := os.MkdirTemp("", "c01bin")
@@ -903,7 +1116,7 @@ Local Open Scope Z_scope.`
 				if st, e := os.Stat(filepath.Join(dir, "out.textpb")); e != nil || st.Size() == 0 {
 					// an empty module encodes to zero bytes: only flag when the parser in-process produced apps
 					var rr rep
-					w.Call(req{map[string]string{"root.sysl": src}, "root.sysl", false, false}, &rr, 20*time.Second)
+					w.Call(req{Files: map[string]string{"root.sysl": src}, Root: "root.sysl"}, &rr, 20*time.Second)
 					if rr.Outcome != "model" {
 						c.Fail("status0-no-model", "sysl pb exits 0 although compilation reports "+rr.Outcome, cs)
 					}
